@@ -212,7 +212,7 @@ CHECKS['C16'] = dict(
 )
 
 CHECKS['C11'] = dict(
-    text=('Proof over the session model of RemoteServer.run (Server/Model.v, pinned to the source): for every sequence of client sessions - each a '
+    text=('The decisions of RemoteServer.run the model depends on (per-client guard of the accept loop, what it lets escape, unknown and duplicate context ids) are read off the source on every run (Gen/ServerLoop.v); serve_f is parameterised by them, gen_sflags_good ties the theorems to the source, refutations keep the other values. Proof over the session model of RemoteServer.run (Server/Model.v, pinned to the source): for every sequence of client sessions - each a '
           'request kind with the point at which the client vanishes (nothing sent, header cut, payload cut, garbage, control connection never opened, '
           'complete) - the server is still up, a session that is not completed leaves the whole server state (children of other clients, context '
           'table) unchanged, and the next well-formed request is served. The REAL server process is attacked with recorded well-formed byte streams '
@@ -227,7 +227,7 @@ CHECKS['C11'] = dict(
 )
 
 CHECKS['C18'] = dict(
-    text=('Proof over the same server model: creating an id that exists is refused and changes nothing about the existing one, creating a free id '
+    text=('The duplicate / unknown-id / delete decisions of RemoteServer.run are read off the source on every run (Gen/ServerLoop.v) and parameterise the table model; refutation for an overwriting duplicate. Proof over the same server model: creating an id that exists is refused and changes nothing about the existing one, creating a free id '
           'registers it, deleting frees the id and leaves every other id alone (also for unknown ids), a worker request naming an unknown context is '
           'answered by closing and changes nothing, the server survives every history. Histories over three ids of create / duplicate create / '
           'delete / delete unknown / worker in context / worker in unknown context run through the REAL RemoteContext and PersistentRemoteWorker API '
